@@ -1551,6 +1551,7 @@ class BaseSpaceImpl(*_base_space_impl_base):
         return _to_frame_inner(self.cells, args)
 
     def on_delete(self):
+        self.del_all_itemspaces()
         for cells in self.cells.values():
             cells.clear_all_values(clear_input=True)
             cells.on_delete()
